@@ -97,6 +97,9 @@ type simpleRequest struct {
 	resp       *RespValue
 	hooks      []func(*simpleRequest)
 	done       chan struct{}
+
+	// cpsFiltered is set once the compress filter has processed the request.
+	cpsFiltered bool
 }
 
 func newSimpleRequest(v *RespValue) *simpleRequest {
